@@ -32,6 +32,7 @@ HEADER_ITEMS = [  # (section index line, mnemonic, unit, value, descr)
 ]
 TITLES = {"V": "~Version", "W": "~Well", "C": "~Curve", "P": "~Parameter", "A": "~ASCII"}
 DATA = [["10", "2.5"], ["20", "-9"]]
+DATA_NEG = [["10", "-2.5"], ["20", "-9"]]  # a hyphen in every data line: the reader re-inspects the section without its hyphen substitutions
 KINDS = ["insert", "insert-1row", "pad-header", "pad-data", "rewrap", "delimiter"]
 BOUNDS = {
     "quick": {"kinds": KINDS, "pad_cap": 2, "header_pad_cap": 1, "comment_cap": 3, "engines": ["numpy", "normal"], "task_budget_s": 900},
@@ -42,7 +43,7 @@ ASSUMPTIONS = [
     "one transformation per run (quick), composed with LF/CRLF and final-newline choices; sites, amounts and characters of the transformation are symbolic",
     "genfromtxt is the validated contract stub of C02",
 ]
-WITNESS_TARGETS = ["comment-line-in-data-section", "blank-line-in-header", "tab-padding", "crlf", "wrap-one-value-per-line", "comma-delimited", "indented-comment-line"]
+WITNESS_TARGETS = ["comment-line-in-data-section", "blank-line-in-header", "tab-padding", "crlf", "wrap-one-value-per-line", "comma-delimited", "indented-comment-line", "comma-delimited-hyphen-in-every-line"]
 EXCLUSIONS = {}
 
 
@@ -56,6 +57,8 @@ def tasks(tier):
         elif k == "delimiter":
             for dlm in ("SPACE", "TAB", "COMMA"):
                 out.append({"name": "delimiter-%s" % dlm, "params": {"kind": k, "dlm": dlm, "pcap": b["header_pad_cap"], "ccap": b["comment_cap"]}, "weight": 4})
+            for dlm in ("SPACE", "COMMA"):
+                out.append({"name": "delimiter-%s-hyphen-in-every-line" % dlm, "params": {"kind": k, "dlm": dlm, "neg": True, "pcap": b["header_pad_cap"], "ccap": b["comment_cap"]}, "weight": 4})
         else:
             out.append({"name": k, "params": {"kind": k, "pcap": b["pad_cap"], "ccap": b["comment_cap"]}, "weight": 2})
     return out
@@ -151,7 +154,7 @@ def harness(ns, params):
         fnl = fresh_bool("final_newline")
         eng = fresh_bool("engine_numpy")
         sel = fresh_int("sel", 0, 80)
-        inputs = {"kind": kind, "crlf": crlf, "final_newline": fnl, "engine_numpy": eng, "sel": sel, "params": {k: v for k, v in params.items() if k in ("item", "dlm")}}
+        inputs = {"kind": kind, "crlf": crlf, "final_newline": fnl, "engine_numpy": eng, "sel": sel, "params": {k: v for k, v in params.items() if k in ("item", "dlm", "neg")}}
         cx = core.ctx()
         cx.inputs = inputs
         apply_exclusions(inputs)
@@ -163,6 +166,9 @@ def harness(ns, params):
         if kind == "delimiter":
             dlm = params["dlm"]
             core.witness("comma-delimited", dlm == "COMMA")
+            if params.get("neg"):
+                data = DATA_NEG
+                core.witness("comma-delimited-hyphen-in-every-line", dlm == "COMMA")
         if kind == "insert-1row":
             data = [["10", "2.5"]]  # a single depth step
         base = base_lines(wrap, dlm, data)
@@ -237,7 +243,7 @@ def harness(ns, params):
             start = base.index(TITLES["A"]) + 1
             sep = {"SPACE": " ", "TAB": "\t", "COMMA": ","}[dlm]
             dl = []
-            for i, row in enumerate(DATA):
+            for i, row in enumerate(data or DATA):
                 if dlm == "TAB":
                     ln = row[0] + "\t" + row[1]  # the tab itself is the delimiter; no extra padding claimed
                 else:
@@ -250,7 +256,7 @@ def harness(ns, params):
         terms = [("\r\n" if crlf_c else "\n")] * len(lines)
         if not fnl_c:
             terms[-1] = ""
-        ref = reference((kind if kind != "insert" else "base", wrap, dlm, len(base)), base, eng_c)
+        ref = reference((kind if kind != "insert" else "base", wrap, dlm, len(base), bool(params.get("neg"))), base, eng_c)
         las = ns.las.LASFile()
         try:
             las.read(SymFile(lines, terms), engine=eng_c)
@@ -275,6 +281,8 @@ def replay(i):
         wrap, data = "YES", [["10", "2.5", "3", "4.5"], ["20", "-9", "7", "8.5"]]
     if kind == "delimiter":
         dlm = i["params"]["dlm"]
+        if i["params"].get("neg"):
+            data = DATA_NEG
     if kind == "insert-1row":
         data = [["10", "2.5"]]
     base = base_lines(wrap, dlm, data)
